@@ -37,21 +37,25 @@ fn main() {
     common::start_watchdog();
     match args[1].as_str() {
         "replay" if args.len() == 5 => {
-            let cases = common::read_ndjson(&args[3]);
-            let report = match args[2].as_str() {
-                "follow" => follow::replay(&cases),
-                "follow-exec" => follow::replay_exec(&cases),
-                "engine" => engine::replay(&cases),
-                "engine-follow" => follow::replay_engine_follow(&cases),
-                "reader" => reader::replay(&cases),
-                "printer" => printer::replay(&cases),
-                "values" => values::replay(&cases),
-                "grammar" => grammar::replay(&cases),
-                "lexical" => lexical::replay(&cases),
-                "parsetotal" => parsetotal::replay(&cases),
-                "extract" => extract::replay(&cases),
-                m => { eprintln!("unknown module {}", m); exit(2) }
+            // cases are processed in chunks (a thorough run can emit millions of behaviours); the per-chunk reports are merged
+            let module = args[2].clone();
+            let run = |cases: &Vec<serde_json::Value>| -> serde_json::Value {
+                match module.as_str() {
+                    "follow" => follow::replay(cases),
+                    "follow-exec" => follow::replay_exec(cases),
+                    "engine" => engine::replay(cases),
+                    "engine-follow" => follow::replay_engine_follow(cases),
+                    "reader" => reader::replay(cases),
+                    "printer" => printer::replay(cases),
+                    "values" => values::replay(cases),
+                    "grammar" => grammar::replay(cases),
+                    "lexical" => lexical::replay(cases),
+                    "parsetotal" => parsetotal::replay(cases),
+                    "extract" => extract::replay(cases),
+                    m => { eprintln!("unknown module {}", m); exit(2) }
+                }
             };
+            let report = common::replay_chunked(&args[3], 20000, run);
             common::write_json(&args[4], &report);
         }
         "trace" if args.len() == 6 => {
